@@ -7,7 +7,7 @@ idx = json.load(open(os.path.join(VERIF, 'seeded', 'index.json')))
 first = json.load(open(os.path.join(VERIF, 'seeded', 'FIRST_RUN.json')))
 fr = set()
 for k, v in first.items():
-    if k.endswith('first_run_reported'):
+    if k.endswith('first_run_reported') and isinstance(v, list):
         fr.update(v)
 print('| seed | change | reported by (own property) | also reported by | first run |')
 print('|---|---|---|---|---|')
@@ -24,7 +24,7 @@ for sid in sorted(idx):
     oth = '; '.join('%s: %s' % (p, ', '.join(sorted({x.split('@')[0]
                                                     for x in v})))
                     for p, v in sorted(idx[sid].items()) if p != prop)
-    rnd = {'A': 1, 'B': 1, 'C': 2, 'D': 2, 'E': 3, 'F': 3, 'G': 4, 'H': 4, 'I': 5, 'J': 5, 'K': 6, 'L': 6, 'M': 7, 'N': 7, 'O': 8, 'P': 8, 'Q': 9, 'R': 9}[sid[-1]]
+    rnd = {'A': 1, 'B': 1, 'C': 2, 'D': 2, 'E': 3, 'F': 3, 'G': 4, 'H': 4, 'I': 5, 'J': 5, 'K': 6, 'L': 6, 'M': 7, 'N': 7, 'O': 8, 'P': 8, 'Q': 9, 'R': 9, 'S': 10, 'T': 10}[sid[-1]]
     f = 'yes' if sid in fr else ('n/a' if rnd == 1 else 'no')
     print('| %s | %s | %s | %s | %s |' % (sid, title.replace('|', '/'), own,
                                           oth or '-', f))
